@@ -31,7 +31,7 @@ PROPS = {
             {"mode": "asan", "scale": 0.1},
         ],
         "offline": ["b64_ref.py"],
-        "rule": "an evaluation is one text decoded through decode(), Decoder and the scanner-side SymbolConverter under 4 tokenisations, or one octet string "
+        "rule": "an evaluation is one text decoded through decode(), Decoder, the scanner-side SymbolConverter and base::scan::IterScanner (convert_entry / convert_token) under 4 tokenisations, or one octet string "
                 "encoded and decoded back, judged by in-harness RFC 4648 codecs (three-valued: well-formed / tolerated non-canonical / malformed); "
                 "exhaustive over all octet strings of length 0..2 and all texts of length <= 5 (quick) or 6 (thorough) over a 7-symbol alphabet per codec; "
                 "distinct = (codec, reference class, library verdicts, length mod 8, padding count, length) tuples",
@@ -122,7 +122,7 @@ PROPS = {
                 "parsing into AllRecordData and four concrete types, OPT options, canonical_name, is_answer, contains_answer, get_last_additional, copy_records, "
                 "dig-style and zone-style display, ParsedName/ParsedRecord/Label::iter_slice at raw offsets, the XFR response interpreter and the TSIG server "
                 "entry incl. its error-response builder), once in fixed and once in seeded block order, under panic capture, a CPU-time watchdog and logical "
-                "iterator caps, with transcript equality, closure checks on every returned name/record and a differential against the reference walker; inputs "
+                "iterator caps, with transcript equality, closure checks on every returned name/record (every displayed text must be UTF-8) and a differential against the reference walker; inputs "
                 "are valid generated messages, 16 structure-aware mutation kinds, exhaustive pointer-target/boundary-octet/truncation families on small "
                 "messages, random octets and a hand-made corpus; distinct = (mutation kind, #records accepted/rejected, #compressed names, record types seen, transcript size) tuples",
         "assumptions": ["a panic documented as a caller contract violation is never provoked (only read-side calls on whatever the parser returned)",
@@ -142,7 +142,8 @@ PROPS = {
                 "AllRecordData path (accept/reject and item-by-item content compared; record types only one codec interprets structurally are excluded from the "
                 "accept/reject comparison), one name parsed at a given offset by ParsedName, RevNameBuf and NameBuf, or one build script (questions and records of "
                 "the 16 types both builders support, four size classes incl. tiny buffers with failing pushes and fillers placing names around offset 16384) "
-                "executed on both builders, each result read by the reference walker (content + pointer well-formedness) and cross-read by both codecs; "
+                "executed on both builders, each result read by the reference walker (content + pointer well-formedness) and cross-read by both codecs; the new builder also filled, cut back with "
+                "truncate() and filled again, which must give what a fresh builder gives (TC aside); the new record-data containers handed 0 .. 131077 octets directly (beyond 65535 they must refuse, like the established codec; what they hold they hold unchanged); "
                 "distinct = (verdict pair, mutation kind, item count, record types seen) resp. (size class, items, failed pushes, size bucket)",
         "assumptions": ["like is compared with like: 'the established codec accepts a record' means header and AllRecordData parsing both succeed, because the new parser parses record data eagerly",
                         "an additional-section record starting 00 00 29 is the new parser's EDNS item and the established parser's OPT record",
@@ -197,7 +198,8 @@ PROPS = {
                 "ZoneBuilder, zone-file text -> inplace -> parsed -> Zone, ZoneUpdater full replacement of another zone, WritableZone node interface, "
                 "ZoneUpdater record-level adds/deletes from another zone, abandoned writer then read); every owner, ancestor, x/a/*/zz child and an out-of-zone "
                 "name x 9 qtypes; the answer is observed through Answer::to_message + the reference walker and compared with the RFC 1034 4.3.2 / RFC 4592 "
-                "lookup model (rcode, AA, answer RRset or CNAME, SOA or NS/DS authority, glue); walk() must enumerate exactly the content; "
+                "lookup model (rcode, AA, answer RRset or CNAME, SOA or NS/DS authority, glue); name servers may be shared between delegations (the glue of one cut lives below another); "
+                "walk() must enumerate exactly the content (a glue record shared by several cuts may be enumerated once per cut); "
                 "distinct = (history, expected shape, node facts, ANY/DS flag)",
         "assumptions": ["for ANY any one RRset of the node is accepted (RFC 8482); a CNAME answer is the CNAME record alone",
                         "glue = address records owned by a name-server target of the cut, as zonetree::parsed collects it",
@@ -233,12 +235,14 @@ PROPS = {
         ],
         "offline": ["nsec3_ref.py"],
         "rule": "an evaluation is one generated zone (6-label alphabet, depth <= 3: delegations with and without DS, in-zone glue, occluded data, nested cuts, "
-                "wildcards, CNAMEs, empty non-terminals shared by two branches, owner-case variants, glue sorting last, apex-only) put through SortedRecords and "
+                "wildcards, CNAMEs, empty non-terminals shared by two branches, owner-case variants, glue sorting last, apex-only, names owning several types outside window 0 - CAA, URI, TA, DLV, private use - "
+                "so that bitmaps have blocks behind the first that are extended and inserted into) put through SortedRecords and "
                 "(a) generate_nsecs, (b) generate_nsec3s with random salt (0..255 octets), iterations (0..50), opt-out on/off, unsigned-delegation exclusion "
                 "on/off, DNSKEY assumption on/off; the emitted records must equal, field by field, the chain computed by an independent model: owner set = "
                 "authoritative names (cuts included, glue/occluded excluded, ENTs only for NSEC3), canonical/hash order, next pointers closing the ring, "
                 "exact type bitmaps, parameters, TTL = min(SOA TTL, SOA MINIMUM); NSEC3 owner labels are decoded with the reference Base32hex decoder and "
-                "compared with an in-harness SHA-1 IH(), itself cross-checked against Python hashlib offline; absent names are probed for exactly one covering "
+                "compared with an in-harness SHA-1 IH(), itself cross-checked against Python hashlib offline; contains() of every generated bitmap is asked about every type of each of its windows, "
+                "of the window behind each and of window 0, and iter() compared with the set bits; absent names are probed for exactly one covering "
                 "NSEC; distinct = (chain kind, config flags, salt/iteration class, ENT count class, cut presence, owner count class)",
         "assumptions": ["input records are an RRset-complete zone with the SOA at the apex, as SortedRecords presents them",
                         "with opt-out and exclusion on, an unsigned delegation gets no NSEC3 and implies no empty non-terminal by itself (RFC 5155 7.1)"],
@@ -319,7 +323,9 @@ PROPS = {
                 "RDATA composer, own ordering, labels count, key tag); the RRSIG must verify with RrsigExt::signed_data + verify_signed_data as signed, "
                 "reordered, with owner case changed, TTL decremented, embedded names re-cased (types whose canonical form folds them), wildcard-expanded "
                 "(with the closest encloser reported), and on records re-parsed from a compressed message; each of ~20 alterations (every RRSIG field, "
-                "signature bits/length, public key bits, an RDATA bit, a record removed, sibling owner, class) must fail; key tags of random DNSKEY RDATA "
+                "signature bits/length, public key bits, the key or the signature relabelled to another algorithm number, an RDATA bit, a record removed, sibling owner, class) must fail; "
+                "the RRset also verifies behind an alias in a compressed message (owners written as a pointer to the CNAME's target, itself ending in a pointer), wildcard-expanded or not; "
+                "the RSA/SHA-1 example of RFC 4035 B.6 (an algorithm the back end verifies but cannot make) verifies, and does not under any other algorithm number, with any bit of the signature or key flipped; key tags of random DNSKEY RDATA "
                 "(incl. RSA/MD5, odd lengths) and DS digests (SHA-1/256/384) equal the reference and, offline, Python hashlib; distinct = (type, algorithm, "
                 "records, wildcard, depth, validity class, ttl=0)",
         "assumptions": ["ECDSA signatures are randomised, so signatures are verified, never compared",
@@ -348,7 +354,9 @@ PROPS = {
                 "RDATA, unknown digest types or 40 extra members) must only not panic or run away; DNAME chains and a zone signed with an imported RSA key "
                 "are part of the hierarchy; (e) forgeries assembled from validly signed parts: an NXDOMAIN proven with the wrap-around NSEC of a child zone, "
                 "a signature naming an unsigned zone as signer, and a genuine wildcard RRset replayed (with the genuine NSEC/NSEC3 covering the name) as the "
-                "answer for a name below an existing sibling of the wildcard; (f) one validation context across a key withdrawal and a signature expiry; "
+                "answer for a name below an existing sibling of the wildcard; (f) one validation context across a key withdrawal and a signature expiry; (g) one validation context asked about a genuine answer and the same answer with its data "
+                "altered under the same RRSIG, in either order, twice; (h) the validating client transport net::client::validator::Connection under every combination of the request's CD / DO / AD bits, "
+                "upstream claims about AD and CD, and answer faults: AD reaches the caller only after a validation that said Secure, never for a CD request, and damaged data does not reach a caller that left CD clear; "
                 "no panic, at most 200 upstream requests per validation; distinct = (kind of answer, denial type, fault, outcome)",
         "assumptions": ["ground truth comes from the construction: every fault removes or invalidates the only signature, record or proof the answer depends on",
                         "the validator reads the wall clock; signatures are made valid from one hour ago to seven days ahead, expired / future ones ten days off",
@@ -367,13 +375,14 @@ PROPS = {
                 "transports (dgram, stream, multi_stream, dgram_stream, redundant over dgram+multi_stream, load_balancer over two dgram) wired to mock datagram "
                 "sockets (AsyncConnect / AsyncDgramSend / AsyncDgramRecv) and tokio duplex streams under the paused tokio clock; each request has a unique query "
                 "name; per transmission the scripted peer sends 0-2 noise messages (wrong ID, other question, QR clear, garbage, short, an answer to another "
-                "request, questionless error with a wrong ID) and then nothing, a late answer (2.5-9 s), a questionless SERVFAIL, a truncated datagram, a "
+                "request, questionless error with a wrong ID, a reply with the right ID, NOERROR, no question and a record for another name) and then nothing, a late answer (2.5-9 s), a questionless SERVFAIL, a truncated datagram, a "
                 "connection close (possibly mid-frame), a re-cased question or the answer, sometimes duplicated up to 6 s later; stream connects may be "
                 "refused; every fourth case the peer is honest (each request answered once, correctly, within 0.8 s, in any order) and every request must "
                 "succeed; on the plain stream transport (real time, delays a tenth as long) also a silent peer under a trickle of requests, and a connection "
                 "that is used again after it fell idle: a few requests answered, a pause inside the idle timeout, then one request the peer never answers, "
                 "which has to fail within the response timeout; an honest peer that answers all requests with one write and closes; one connection "
-                "carrying 66000 requests a few at a time; and a real-thread family (multi-thread runtime, real time, honest peer, 20-80 concurrent "
+                "carrying 66000 requests a few at a time; a multiplexed stream transport with requests in flight whose second connect takes 20-40 s (a request that fails on its own, being too long for a stream, asks for it): "
+                "the requests on the first connection complete with their answers in time; and a real-thread family (multi-thread runtime, real time, honest peer, 20-80 concurrent "
                 "requests per case over each transport; all there is to the ThreadSanitizer stage). Oracle over the caller's result joined with the peer's log of (wire ID, query name): an Ok message has QR set, an ID that was used for "
                 "this very request, and this request's question (or, without question, an error rcode and empty sections); every request completes, and within "
                 "the transport's timeout-and-retry budget (virtual time); a truncated datagram answer is only handed out after the stream was tried; no panic; "
@@ -396,7 +405,7 @@ PROPS = {
                 "requests carry a COOKIE option: client-only, with unknown server part, too short, between 8 and 16, too long) under the paused tokio clock; the query name tells the service what to do: one "
                 "response of n records (sizes chosen around 512, 1232, 4096 and 65535), k responses in sequence, a delayed response, or a failure. UDP: 1-24 "
                 "datagrams per case from distinct addresses, EDNS size in {none, 0, 100, 511, 512, 513, 1232, 4096, 65535}, configured maximum in {512, 1232, "
-                "4096, none}, a quarter of them hostile (short, random, QR set, QDCOUNT 65535, truncated question, mutated message, odd opcode, two OPTs), "
+                "4096, none} and in a third of the cases changed while the server runs (reconfigure(): the new maximum holds for everything received afterwards), a quarter of them hostile (short, random, QR set, QDCOUNT 65535, truncated question, mutated message, odd opcode, two OPTs), "
                 "then a probe: exactly one response to the sender with its ID and question, never longer than min(max(512, EDNS size), configured maximum) "
                 "resp. 512 without EDNS, complete when it fits, TC set and parseable when not. Streams: 1-5 connections with 1-10 pipelined requests written "
                 "in chunks of 1..all octets, every fifth aborted at a random octet, hostile frames (zero length, shorter than a header, never completed, half "
@@ -424,11 +433,12 @@ PROPS = {
         ],
         "rule": "an evaluation is one query answered by net::client::cache::Connection over a mock upstream (SendRequest) under the paused tokio clock; a case "
                 "is a history of 8-60 queries over 4 names x {A, TXT} with every combination of RD/CD/AD/DO and occasional upper-case spelling, the clock "
-                "moved between queries by 0, fractions of a second, amounts around 1/2/5/30/60/75/90/100/300 s, or up to an hour; each name answers in one way "
+                "moved between queries (and, for a fifth of them, between making the request object and asking it for its response) by 0, fractions of a second, amounts around 1/2/5/30/60/75/90/100/300 s, or up to an hour; each name answers in one way "
                 "(positive with NS/glue and, under DO, RRSIGs; NODATA and NXDOMAIN with SOA and, under DO, NSEC/NSEC3/RRSIG; delegation; SERVFAIL/REFUSED; "
                 "truncated; transport failure; empty NOERROR; an alias: CNAME plus the target's data, CNAME plus SOA as NODATA, CNAME plus SOA as NXDOMAIN) with TTLs from {0,1,2,5,30,59,60,61,300,...}; every upstream response carries a unique "
                 "marker, so a response served without asking upstream names the response it was made from; a real-thread family (multi-thread runtime, six "
-                "tasks querying one cache at once, judged by the markers alone) is also all there is to the ThreadSanitizer stage; cache configuration (maximum validity, NXDOMAIN / "
+                "tasks querying one cache at once, judged by the markers alone) is also all there is to the ThreadSanitizer stage; a sixth of the requests are made from a message that already carries an OPT record and call no EDNS setter, and half of the upstreams read requests the way the stream "
+                "transports serialise them (append_message); cache configuration (maximum validity, NXDOMAIN / "
                 "NODATA / delegation bounds, error and failure durations, cache_truncated, 1-1000 entries) random. Oracle: a cached response is upstream's "
                 "answer to the same name and type, for flags it is compatible with (RD only from RD, CD equal, DO only from DO, AD from AD or DO), with the "
                 "same records (minus RRSIG/NSEC/NSEC3 without DO), every TTL reduced by the age (never increased), served no later than its smallest TTL, "
